@@ -48,6 +48,9 @@ def t3_case(args):
         sp.files["../sib/new/keep"] = "k\n"
         s0 = sp.src("src", [inpath])
         extra = rng.choice([[], ["side.log"], ["sub/dir/side.log"], ["x.__fsr", "y..z"]])
+        if shape == "extra-placeholder":
+            out = "out.txt"
+            extra = ["__parent__e.log"]          # a name that looks like the internal place-holder (shape of finding D16)
         p1 = t3.Proc("w", kind="cattok", ins=[("a", [(s0, "out")])], outs=[("o", out)], extra=extra)
         i1 = sp.proc(p1)
         p2 = t3.Proc("r", kind="cat", ins=[("a", [(i1, "o")])], outs=[("o", "final.txt")])
@@ -64,6 +67,7 @@ def t3_case(args):
             return v[1] if v and v[0] == "f" else None
         res = {"shape": shape, "out": out, "in": inpath, "extra": extra, "rc": impl["rc"], "canonical": canonical(out)}
         problems = []
+        known = set()
         ok = impl["rc"] == 0 and impl["returned"]
         if ok:
             if at(out) != content:
@@ -72,13 +76,17 @@ def t3_case(args):
                 problems.append("the consumer did not read the produced file through its in-placeholder (final.txt = %r)" % (at("final.txt"),))
             for x in extra:
                 if at(x) != "tok_w\n":
-                    problems.append("additional file %r is not at the same relative location under the working directory" % x)
+                    if x.startswith("__parent__") and at("../" + x[len("__parent__"):]) == "tok_w\n":
+                        res["d16"] = True
+                        known.add(os.path.normpath("../" + x[len("__parent__"):]))
+                    else:
+                        problems.append("additional file %r is not at the same relative location under the working directory" % x)
             lo = t3.leftovers(impl["fs"])
             if lo:
                 problems.append("leftovers: %s" % lo)
             # nothing else appeared anywhere
             rel = lambda k: os.path.normpath(os.path.relpath(k, sc.work) if k.startswith("/") else k)
-            known = {rel(k) for k in list(sp.files) + [out, "final.txt"] + extra}
+            known |= {rel(k) for k in list(sp.files) + [out, "final.txt"] + extra}
             for k, v in allfs.items():
                 if v[0] == "f" and not k.endswith(".audit.json") and not t3.IGNORED.match(k) and os.path.normpath(k) not in known:
                     problems.append("unexpected file %r" % k)
@@ -111,11 +119,17 @@ def run(rep, tier, seed):
     for i, a, b in diffs[:5]:
         rep.notes.setdefault("disagreements", []).append({"path": paths[i] if i >= 0 else None, "impl": a, "model": b})
     # T3: real one-task workflows for each path shape
-    cases = [(s, i, seed) for i, s in enumerate(SHAPES * (1 if tier == "quick" else 6) + NONCANON)]
+    cases = [(s, i, seed) for i, s in enumerate(SHAPES * (1 if tier == "quick" else 6) + NONCANON + ["extra-placeholder"])]
     results = t3.run_many(t3_case, cases)
     found = False
     kf = vlib.known_findings("C13")
     for r in results:
+        if r.get("d16"):
+            if any(f["kind"] == "extra-file-named-like-placeholder" for f in kf):
+                rep.known_finding("an additional file whose name contains the internal place-holder '__parent__' is moved to the parent-relative path it decodes to ('__parent__e.log' -> '../e.log') instead of its own relative location")
+            else:
+                rep.violation("an additional file named '__parent__e.log' was moved to '../e.log'", {"kind": "extra-file-misplaced", **r})
+                found = True
         if r["canonical"]:
             if not r["ok"]:
                 rep.violation("a task with the valid output path %r fails (rc=%s): %s" % (r["out"], r["rc"], r["stderr"]), {"kind": "valid-path-fails", **r})
